@@ -499,7 +499,10 @@ def run(ctx):
             import difflib
             ta, tb2 = flat_tokens(forms[ref[0]][key]) if ref else [], flat_tokens(forms[odd_t][key])
             hsim = difflib.SequenceMatcher(None, ta, tb2, autojunk=False).ratio() if ref else 1.0
-            if ref and uni >= 12 and sim < 0.4 and hsim < 0.7:
+            # (thresholds from the suites: every independent single-copy slip that only this comparison reports has a syntax similarity
+            # of 0.87 or more, with one exception at 0.65 - a faulty rewrite, indistinguishable here from the six correct rewrites of
+            # one copy between 0.28 and 0.79.  Below 0.8 the comparison has no basis for a verdict and says so.)
+            if ref and uni >= 12 and (hsim < 0.8 or (sim < 0.4 and hsim < 0.85)):
                 ctx.add(RULE, f, 'sibling(%s)' % key[1], 'info', '%s is implemented differently in the %s copy (%.0f%% of the guarded effects in common with the %s cop%s): sibling comparison not applicable, the copy is checked on its own by the other rules' % (key[1], fams[odd_t], 100 * sim, '/'.join(others), 'ies' if len(others) > 1 else 'y'),
                         props_of(prog, f, c09), f.line, {'similarity': round(sim, 2), 'syntax_similarity': round(hsim, 2)}, nontrivial=False)
                 continue
